@@ -163,7 +163,7 @@ pub fn family_jobs(tier: Tier, families: &[&str]) -> (Vec<Job>, serde_json::Valu
     if families.contains(&"E") {
         let (js, pl) = match tier {
             Tier::Quick => family_e_jobs(&[(0, true, 0), (1, true, 32), (2, false, 10)], usize::MAX),
-            Tier::Thorough => family_e_jobs(&[(0, true, 0), (1, true, 0), (2, true, 24), (3, false, 8)], 6_000_000),
+            Tier::Thorough => family_e_jobs(&[(0, true, 0), (1, true, 0), (2, true, 24), (3, false, 8)], 1_200_000),
         };
         jobs.extend(js);
         plan.insert("E".into(), pl);
